@@ -71,6 +71,8 @@ func init() {
 
 func c16Families(tier string) []engine.Family {
 	// (a) encoders
+	streamMaxNodes = tierPick(tier, 4, 5) // every stream is run once per write index: one node less than C01
+	defer func() { streamMaxNodes = 0 }()
 	fams := streamFamilies(tierPick(tier, "quick", "thorough"), func(x *engine.Exec, c *StreamCase) {
 		if c.Fam == "strings" && len(c.Evs[len(c.Evs)/2].S) > 600 {
 			return
